@@ -37,15 +37,18 @@ fn main() {
     std::process::exit(code);
 }
 
-fn limits() {
-    // Backstop limits for a worker: address space 12 GiB; single requests above 1 GiB are refused
-    // by the counting allocator.
+fn limits(profile: &str) {
+    // Backstop limits for a worker: address space 12 GiB (not under AddressSanitizer, which
+    // reserves terabytes of shadow address space); single requests above 1 GiB are refused by the
+    // counting allocator.
     unsafe {
-        let lim = libc::rlimit {
-            rlim_cur: 12 << 30,
-            rlim_max: 12 << 30,
-        };
-        libc::setrlimit(libc::RLIMIT_AS, &lim);
+        if profile != "asan" {
+            let lim = libc::rlimit {
+                rlim_cur: 12 << 30,
+                rlim_max: 12 << 30,
+            };
+            libc::setrlimit(libc::RLIMIT_AS, &lim);
+        }
         let core = libc::rlimit {
             rlim_cur: 0,
             rlim_max: 0,
@@ -68,10 +71,11 @@ fn shard(a: &[String]) {
     let start_unit: u32 = a[4].parse().expect("start unit");
     let out_dir = PathBuf::from(&a[5]);
     let profile = &a[6];
-    limits();
+    limits(profile);
     engine::record_panic_locations();
     let ctx = Ctx::new(prop.id, tier, seed, shard, profile, start_unit, out_dir);
-    if shard == 0 && start_unit == 0 {
+    // Regression corpus: once per build profile (shards are assigned to profiles round robin).
+    if (shard as usize) < prop.profiles.len() && start_unit == 0 {
         replay_corpus(&prop, &ctx);
     }
     (prop.run)(&ctx);
@@ -531,7 +535,10 @@ fn replay_inner(path: &Path) -> i32 {
         eprintln!("unknown property {}", rf.property);
         return 2;
     };
-    limits();
+    let asan = std::env::current_exe()
+        .map(|p| p.to_string_lossy().contains("-asan"))
+        .unwrap_or(false);
+    limits(if asan { "asan" } else { "" });
     engine::record_panic_locations();
     engine::arm_cpu_watchdog(engine::CASE_CPU_SECONDS);
     match (prop.replay)(&rf.oracle, &rf.case) {
